@@ -10,6 +10,7 @@ structure RxSt where
   consumed : Nat := 0        -- ghost: sequence numbers consumed so far (= last_consumed - a0)
   finSeen : Bool := false
   poisoned : Bool := false   -- the real code panicked: nothing after that is comparable
+  lastR : Nat := 0           -- which of the two reader tasks (wakers A = 0, B = 1) registered last
 
 def showRx (r : Rx) (ws : List Wake) : String :=
   s!"win={r.remainingRxWindow} sack={showSack r.ooq.selectiveAck} aempty={bool01 r.ooq.isEmpty} dw={countWake ws .dispatcher} rw={countWake ws .reader}"
@@ -22,7 +23,7 @@ def showAddRemove : AddRemove → String
   | .bugInvalidMessage => "bug:invalid"
   | .bugMissingSlot => "bug:slot"
 
-def stepRx (s : RxSt) (args : List String) : RxSt × String :=
+def stepRx1 (s : RxSt) (args : List String) : RxSt × String :=
   match args with
   | ["new", a, b] => match nat? a, nat? b with
     | some a, some b => if a = 0 ∨ b = 0 then (s, "bad-op") else
@@ -59,5 +60,28 @@ def stepRx (s : RxSt) (args : List String) : RxSt × String :=
   | ["error", m] => let (r', ws) := s.rx.enqueueError m; ({ s with rx := r' }, s!"ok {showRx r' ws}")
   | ["close"] => let (r', ws) := s.rx.markVsockClosed; ({ s with rx := r' }, s!"ok {showRx r' ws}")
   | _ => (s, "bad-op")
+
+
+/-- Two reader tasks may poll the same read half (a read half handed from one task to another): `readb` is `read`
+with the second waker. The model's reader waker is one flag; whose waker it is = who polled last and was left
+registered (a read that ends Pending). A reader wake-up is attributed to that task: `rw=` / `rwb=`. -/
+def stepRx (s : RxSt) (args : List String) : RxSt × String :=
+  let (who, args1) := match args with
+    | "readb" :: rest => (1, "read" :: rest)
+    | _ => (0, args)
+  let isRead := match args1 with | "read" :: _ => true | _ => false
+  -- `poll_read` only ever SETS the reader-waker flag: run it with the flag cleared to see whether THIS call
+  -- registered (it does whenever it finds the queue empty, also after having copied data), then restore it
+  let s0 := if isRead then { s with rx := { s.rx with readerWaker := false } } else s
+  let (s1, out) := stepRx1 s0 args1
+  let registered := isRead ∧ s1.rx.readerWaker
+  let s1 := if isRead then { s1 with rx := { s1.rx with readerWaker := s1.rx.readerWaker || s.rx.readerWaker } } else s1
+  let out2 := match out.splitOn " rw=" with
+    | [pre, k] => if s.lastR = 0 then s!"{pre} rw={k} rwb=0" else s!"{pre} rw=0 rwb={k}"
+    | _ => out
+  let s2 := match args with
+    | "new" :: _ => { s1 with lastR := 0 }
+    | _ => if registered then { s1 with lastR := who } else { s1 with lastR := s.lastR }
+  (s2, out2)
 
 end UtpVerif.Driver
